@@ -6,7 +6,7 @@
 #include "preprocessing.h"
 void harness(void){
   matrix *m; NewMatrix(&m,HP_M,1); size_t k0=0; int differ=0; double mn=0,mx=0;
-  for(size_t i=0;i<HP_M;i++){ size_t k=in_size(0,15); if(i==0) k0=k; else if(k!=k0) differ=1; double v=(double)(HP_OFFSET)+(double)k/16.0; m->data[i][0]=v; if(i==0||v<mn) mn=v; if(i==0||v>mx) mx=v; }
+  for(size_t i=0;i<HP_M;i++){ size_t k=in_size(0,15); if(i==0) k0=k; else if(k!=k0) differ=1; double v=(double)(HP_OFFSET)+(double)k/16.0;    /* offsets >= 2^24: squares need more than 53 bits, so the arithmetic does round */ m->data[i][0]=v; if(i==0||v<mn) mn=v; if(i==0||v>mx) mx=v; }
   ASSUME(differ);
   dvector *sd; initDVector(&sd); MatrixColSDEV(m,sd);
   double s=sd->data[0];
